@@ -501,6 +501,7 @@ def _run(case, fs, amb):
                 compiled = True
                 evaluated = snap['values'] is not None
                 bump('probe:generation_adopted')
+    stats['sim_clock_seconds'] = int(amb.clock.advanced)
     return {'viol': viol, 'log': log, 'stats': stats, 'cover': [],
             'sig': '|'.join(sig) if judged else None}
 
